@@ -43,7 +43,7 @@ PROPS = {
     },
     "C14": {
         "level": "exploration",
-        "level_text": "every model server / memory device discovered from the source tree that exposes a single-register Get/Update/Pull triple is put behind wrapper -> router -> wrapper (all real code, free-running between the two wrappers) and driven with protoreflect-built random updates, update masks (valid, invalid, nil) and read masks, with 0-2 open streams whose readers keep up; relational register laws at true quiescence after every RPC; a stream opened while another client's Update is in progress (handler goroutines scheduled by the simulator) must have arrived at what Get returns once at rest; measured coverage of the discovered triples",
+        "level_text": "every model server / memory device discovered from the source tree that exposes a single-register Get/Update/Pull triple is put behind wrapper -> router -> wrapper (all real code, free-running between the two wrappers) and driven with protoreflect-built random updates, update masks (valid, invalid, nil) and read masks, with 0-2 open streams whose readers keep up; relational register laws at true quiescence after every RPC; a stream opened while another client's Update is in progress (handler goroutines scheduled by the simulator) must have arrived at what Get returns once at rest; concurrent relative updates from several clients come to what a second instance of the server makes of them from one caller, a rejected one having changed nothing; measured coverage of the discovered triples",
         "level_note": TRUST + "; servers whose constructor or request shape the discovery does not understand are listed in the evidence as not covered; float fields count as changed only from a difference of 1.0 (the models' tolerances are their business); tweens are not advanced between an Update and the following Get",
         "technique": "deterministic simulation (client task, fake clock, synctest quiescence) of the full wrapper/router/wrapper/server stack with relational read-your-writes oracles over discovered Get/Update/Pull triples",
         "rule": ("(server, triple) from the decision tape, then 1-6 RPCs (Update with random message and mask kind, Get with read mask, open Pull updates-only or not); every run is non-trivial (client, server and stream readers); "
@@ -60,7 +60,7 @@ PROPS = {
     },
     "C12": {
         "level": "exploration",
-        "level_text": "every generated router (discovered from the source tree, count cross-checked against the file glob) x every method of its service descriptor, driven through the descriptor's own handlers with random requests and scripted fake backends (faults: backend status at any position, caller send error at message j, factory/fallback misses); registry histories by 1-3 tasks at the router's windows checked for linearizability against a map model; the default-name interceptors also on their own, with streams of several requests; measured coverage of the (router, method) space, required complete in the thorough tier",
+        "level_text": "every generated router (discovered from the source tree, count cross-checked against the file glob) x every method of its service descriptor, driven through the descriptor's own handlers with random requests and scripted fake backends (faults: backend status at any position, caller send error at message j, factory/fallback misses; in one run of four a wrapped hop - a typed client over pkg/wrap to a second router - sits between the router and the backends); registry histories by 1-3 tasks at the router's windows checked for linearizability against a map model; the default-name interceptors also on their own, with streams of several requests; measured coverage of the (router, method) space, required complete in the thorough tier",
         "level_note": TRUST + "; porcupine for the registry; fake backends are typed sc-api clients over a recording grpc.ClientConnInterface. NOT decided: the textual clause that checked-in routers/wrappers are byte-for-byte what the generators produce - its behavioural consequence (every descriptor method is routed, none falls through to Unimplemented) is decided by the enumeration",
         "technique": "deterministic simulation: enumeration of (router, method) with seeded requests/response scripts/faults through the service descriptors + seeded schedules of registry operations with a porcupine linearizability check",
         "rule": ("route-forward: (router, method, request name, default-name interceptor, backend script, caller send error) from the decision tape; every run is non-trivial; distinct = distinct (router.method, target name) combinations. "
@@ -108,7 +108,7 @@ PROPS = {
     },
     "C19": {
         "level": "exploration",
-        "level_text": "seeded exploration of operation sequences through Model and through the ElectricApi/MemorySettingsApi server, first by one caller with per-call postconditions, then by 2-4 concurrent callers that are parked inside the underlying resource operations while holding the model mutex; the documented invariants at every quiescent point, a concurrent clear must return a mode marked normal, start-time stamping against the injected clock, streams folded against Modes()/ActiveMode()",
+        "level_text": "seeded exploration of operation sequences through Model and through the ElectricApi/MemorySettingsApi server, first by one caller with per-call postconditions, then by 2-4 concurrent callers that are parked inside the underlying resource operations while holding the model mutex; the documented invariants at every quiescent point, a concurrent clear must return a mode marked normal, start-time stamping against the injected clock (per call; at rest the active mode carries the latest stamp any switch was given; along an exact stream the stamps of switches increase), streams folded against Modes()/ActiveMode()",
         "level_note": TRUST + "; set-active is documented not to stamp and is not required to; start times are checked against the injected clock's window of the call",
         "technique": "deterministic simulation (seeded scheduler, gates on the model mutex and hooks inside the underlying resources) + invariant and postcondition oracles",
         "rule": RULE_SCHED,
@@ -136,7 +136,7 @@ PROPS = {
     },
     "C09": {
         "level": "exploration",
-        "level_text": "seeded exploration of writer/consumer pacing with stall, abandon and fake-time advance faults: no-wait for lossy subscribers, validity of the lossy stream as an edit script of the consumer's own view, convergence after draining, and the bounded failure of backpressured Value writes decided exactly on the fake clock",
+        "level_text": "seeded exploration of writer/consumer pacing with stall, abandon and fake-time advance faults: no-wait for lossy subscribers, validity of the lossy stream as an edit script of the consumer's own view, convergence after draining, the bounded failure of backpressured Value writes decided exactly on the fake clock, and slow backpressured consumers (Value: under 5 s per event; Collection: 5-8 s per event) that lose nothing while every write succeeds",
         "level_note": TRUST + "; the 5 s bound is taken from the property statement, not from the code; the merge table of mergeCollectionExcess is never consulted by the oracle",
         "technique": "deterministic simulation with fault injection (stall, abandon, fake-time advance) + edit-script validity / convergence / bounded-liveness oracles",
         "rule": RULE_SCHED,
@@ -166,7 +166,7 @@ PROPS = {
     },
     "C04": {
         "level": "exploration",
-        "level_text": "seeded exploration of single-writer histories (successful and failing writes, write times, clock jumps) against 1-3 backpressured consumers whose pace is decided by the scheduler; every received stream compared event by event with the edit script derived from the reference model; plus a subscriber that arrives while the writer is at work, whose stream must be the seed after j writes followed by exactly the script of the rest for an admissible j",
+        "level_text": "seeded exploration of single-writer histories (successful and failing writes, write times, clock jumps) against 1-3 backpressured consumers whose pace is decided by the scheduler; every received stream compared event by event with the edit script derived from the reference model (with an exact or a tolerance equivalence configured: an event may be missing only if its value is equivalent to what the subscriber was last sent); plus a subscriber that arrives while the writer is at work, whose stream must be the seed after j writes followed by exactly the script of the rest for an admissible j",
         "level_note": TRUST + "; reference model of appendix A; change times are checked against the injected clock's [invoke, return] window of the write (exactly against WithWriteTime)",
         "technique": "deterministic simulation (seeded scheduler, consumer pace = schedule) + expected edit script derived from the writer log through an executable reference model",
         "rule": RULE_SCHED,
@@ -208,7 +208,7 @@ PROPS = {
     },
     "C02": {
         "level": "exploration",
-        "level_text": "seeded exploration of 2-4 writers interleaved at every hooked window of the optimistic read / change / lock / save / publish sequence; every history checked for linearizability against the reference model; trait-level read-modify-write (count deltas, enter/leave totals) and a trait whose writes continue in a goroutine of their own (brightness fades as scheduled tasks, clients calling while a fade ticks: an acknowledged later write is never overwritten) and a model that deletes on its own (the hail keep-alive collector against concurrent refreshes); on every discovered server: relative updates add up, and after generated concurrent Updates the state is the response of one of the successful ones; a model that keeps a log beside its resource (waste records) holds exactly the adds that reported success; evidence over sampled schedules",
+        "level_text": "seeded exploration of 2-4 writers interleaved at every hooked window of the optimistic read / change / lock / save / publish sequence; every history checked for linearizability against the reference model; trait-level read-modify-write (count deltas, enter/leave totals) and a trait whose writes continue in a goroutine of their own (brightness fades as scheduled tasks, clients calling while a fade ticks: an acknowledged later write is never overwritten) and a model that deletes on its own (the hail keep-alive collector against concurrent refreshes); on every discovered server: concurrent relative updates (delta / relative flags, small and large steps) come to what a second instance of the server makes of the same updates from one caller, and after generated concurrent Updates the state is the response of one of the successful ones; a model that keeps a log beside its resource (waste records) holds exactly the adds that reported success; operations that span a model's two resources (electric: find the normal mode, make it active) are one step for every concurrent caller; evidence over sampled schedules",
         "level_note": TRUST + "; porcupine v1.3.0 as linearizability checker; the reference model of DESIGN.md appendix A (validated against the implementation by C01)",
         "technique": "deterministic simulation (seeded scheduler over simhook windows) + porcupine linearizability check against an executable reference model + conservation checks",
         "rule": RULE_SCHED,
